@@ -79,8 +79,15 @@ def make_store(kind: str, tmpdir: str | None):
 class StoreProxy:
     """Forwards everything to the real store; can freeze the run after the k-th persisted tick and fail chosen writes."""
 
-    def __init__(self, inner, *, crash_after_tick: int | None = None, fail_plan: dict | None = None, yields: list | None = None):
+    def __init__(self, inner, *, crash_after_tick: int | None = None, fail_plan: dict | None = None, yields: list | None = None, latency: float = 0.0):
         self._inner = inner
+        # virtual seconds every store call takes before it reaches the store (I/O latency): other tasks and timers run meanwhile
+        # (a number, or {"read": r, "write": w}: writes slower than reads, as on most real stores)
+        if isinstance(latency, dict):
+            self._latency = float(latency.get("read", 0.0))
+            self._wlatency = float(latency.get("write", 0.0))
+        else:
+            self._latency = self._wlatency = float(latency or 0.0)
         # a store with real I/O suspends inside its calls; the in-process stores never do.  `yields` = generated numbers of
         # event-loop yields inserted before each store call (cycled), so that races around store access can materialise.
         self._yields = list(yields or [])
@@ -95,7 +102,7 @@ class StoreProxy:
 
     def __getattr__(self, name):
         attr = getattr(self._inner, name)
-        if not self._yields or name.startswith("_") or not callable(attr):
+        if (not self._yields and not self._latency) or name.startswith("_") or not callable(attr):
             return attr
         import inspect
 
@@ -116,7 +123,10 @@ class StoreProxy:
             return gen_with_yields
         return attr
 
-    async def _pause(self) -> None:
+    async def _pause(self, write: bool = False) -> None:
+        lat = self._wlatency if write else self._latency
+        if lat:
+            await asyncio.sleep(lat)
         if not self._yields:
             return
         n = self._yields[self._yi % len(self._yields)]
@@ -134,7 +144,7 @@ class StoreProxy:
         return False
 
     async def append_tick(self, run_id, tick_data):
-        await self._pause()
+        await self._pause(write=True)
         await self._inner.append_tick(run_id, tick_data)
         self.n_ticks += 1
         if self.crash_after_tick is not None and self.n_ticks >= self.crash_after_tick:
@@ -142,7 +152,7 @@ class StoreProxy:
             await asyncio.Event().wait()  # the process is gone: this write never "returns"
 
     async def update_handler_status(self, run_id, **kw):
-        await self._pause()
+        await self._pause(write=True)
         if self._should_fail("update_handler_status"):
             raise OSError("injected store write failure")
         await self._inner.update_handler_status(run_id, **kw)
@@ -150,14 +160,14 @@ class StoreProxy:
             self.status_writes.append((VClock.t, run_id, kw["status"]))
 
     async def update(self, handler):
-        await self._pause()
+        await self._pause(write=True)
         if self._should_fail("update"):
             raise OSError("injected store write failure")
         await self._inner.update(handler)
         self.status_writes.append((VClock.t, handler.run_id, handler.status))
 
     async def append_event(self, run_id, envelope):
-        await self._pause()
+        await self._pause(write=True)
         if self._should_fail("append_event"):
             raise OSError("injected store write failure")
         return await self._inner.append_event(run_id, envelope)
